@@ -150,7 +150,7 @@ def run(ck):
             "descriptor by hand — so every way an entry leaves the queue (sent, failed, peer gone, removePeer, dropped) closes it once; a "
             "FileBuffer (which opens the descriptor) exists only as the argument of the asyncWrite that wraps it", 5)
     bh = prog.cls(T + "BufferHolder")
-    owner = [x for x in bh["fields"] if "shared_ptr" in x["type"]]
+    owner = [x for x in bh["fields"] if "shared_ptr" in (x.get("ctype") or x["type"])]
     dtor_idiom = [f2 for f2 in prog.funcs.values() if f2.d.get("dtor") and f2.cls in (T + "BufferHolder", T + "WriteEntry", "Pistache::FileBuffer")
                   and any(libc(c, "close") for c in f2.events("call"))]
     if not owner and dtor_idiom:
@@ -169,6 +169,12 @@ def run(ck):
         ctors = [f2 for f2 in prog.funcs.values() if f2.cls == T + "BufferHolder" and f2.d.get("ctor") and f2.params and "FileBuffer" in f2.params[0]["type"]]
         ck.require(ctors, "BufferHolder(const FileBuffer&) not found")
         inits = [e for e in ctors[0].events("init") if e.get("f") == oq]
+        # (or the file constructor delegates to another constructor of the class, which initialises the owner from its parameter)
+        for dc in ctors[0].events("construct"):
+            tgt = prog.funcs.get(dc.get("cid") or "")
+            if tgt is not None and tgt.cls == T + "BufferHolder" and tgt.id != ctors[0].id:
+                pn_ = {p_["name"] for p_ in tgt.params}
+                inits += [e for e in tgt.events("init") if e.get("f") == oq and any(re.search(r"\b%s\b" % re.escape(n_), e.get("t") or "") for n_ in pn_)]
         okc = bool(inits) and mk and any((c.get("callee") or "") == mk[0].name for c in ctors[0].events("call"))
         ck.ob("C08-R8", "BufferHolder(FileBuffer)/creates-owner", bool(okc), ctors[0].loc, ctors[0], "the file constructor initialises the owner from buffer.fd()")
         dt = lib.single(prog, T + "BufferHolder::detach")
